@@ -881,19 +881,19 @@ func genView(r *core.Rand) string {
 
 func (P) Generate(g *core.Gen) {
 	r := g.R
-	for i, n := 0, g.N(120, 600); i < n; i++ {
+	for i, n := 0, g.N(100, 600); i < n; i++ {
 		line, class, nt := genChain(r.Fork(), 0, 12, false)
 		g.Case(class, nt, line)
 	}
-	for i, n := 0, g.N(400, 2500); i < n; i++ {
+	for i, n := 0, g.N(300, 2500); i < n; i++ {
 		line, class, nt := genChain(r.Fork(), 1, 22, i%50 == 0)
 		g.Case(class, nt, line)
 	}
-	for i, n := 0, g.N(250, 2000); i < n; i++ {
+	for i, n := 0, g.N(200, 2000); i < n; i++ {
 		line, class, nt := genChain(r.Fork(), 2, 22, false)
 		g.Case(class, nt, line)
 	}
-	for i, n := 0, g.N(400, 2500); i < n; i++ {
+	for i, n := 0, g.N(300, 2500); i < n; i++ {
 		line, class, nt := genChain(r.Fork(), 3, 26, false)
 		g.Case(class, nt, line)
 	}
@@ -903,7 +903,7 @@ func (P) Generate(g *core.Gen) {
 		g.Case(class+"-long", nt, line)
 	}
 	// independent instances side by side (hidden shared state between chains / caches)
-	for i, n := 0, g.N(20, 150); i < n; i++ {
+	for i, n := 0, g.N(15, 150); i < n; i++ {
 		var subs []string
 		for k := 0; k < multiMax; k++ {
 			line, _, _ := genChain(r.Fork(), 1+(i+k)%3, 6+2*k, false)
@@ -911,10 +911,10 @@ func (P) Generate(g *core.Gen) {
 		}
 		g.Case("multi8", true, "C03 multi "+strings.Join(subs, " ## "))
 	}
-	for i, n := 0, g.N(250, 3000); i < n; i++ {
+	for i, n := 0, g.N(200, 3000); i < n; i++ {
 		g.Case("view", true, genView(r.Fork()))
 	}
-	for i, n := 0, g.N(1200, 12000); i < n; i++ {
+	for i, n := 0, g.N(1000, 12000); i < n; i++ {
 		line, nt := genCache(r.Fork(), 24)
 		g.Case("cache", nt, line)
 	}
